@@ -57,15 +57,21 @@ def worker_main(argv):
     return 0
 
 
+def out_dir():
+    """Where evidence/ and replays/ go: the checkout itself, unless a self-test run against a scratch copy of the
+    repository (CPVERIF_REPO) redirects them with CPVERIF_OUT so that it cannot overwrite evidence about /repo."""
+    return os.environ.get("CPVERIF_OUT") or core.HERE
+
+
 def write_replay(prop, tier, seed, violation):
-    folder = os.path.join(core.HERE, "replays", prop)
+    folder = os.path.join(out_dir(), "replays", prop)
     os.makedirs(folder, exist_ok=True)
     body = dict(violation)
     body.update({"property": prop, "tier": tier, "seed": seed})
     path = os.path.join(folder, core.digest([violation["key"], violation["case"]]) + ".json")
     with open(path, "w") as f:
         json.dump(body, f, indent=1, sort_keys=True)
-    return os.path.relpath(path, core.HERE)
+    return os.path.relpath(path, out_dir())
 
 
 def finish(prop, tier, seed, merged, driver, wall):
@@ -127,8 +133,8 @@ def finish(prop, tier, seed, merged, driver, wall):
     }
     if merged["exhaustive"] is not None:
         evidence["coverage"]["exhaustive"] = bool(merged["exhaustive"])
-    os.makedirs(os.path.join(core.HERE, "evidence"), exist_ok=True)
-    with open(os.path.join(core.HERE, "evidence", prop + ".json"), "w") as f:
+    os.makedirs(os.path.join(out_dir(), "evidence"), exist_ok=True)
+    with open(os.path.join(out_dir(), "evidence", prop + ".json"), "w") as f:
         json.dump(evidence, f, indent=1, sort_keys=True)
 
     for line in lines:
@@ -149,7 +155,7 @@ def finish(prop, tier, seed, merged, driver, wall):
 def parent_main(prop, tier, seed):
     driver = load_driver(prop)
     t0 = time.time()
-    shutil.rmtree(os.path.join(core.HERE, "replays", prop), ignore_errors=True)  # witnesses of earlier runs would mislead
+    shutil.rmtree(os.path.join(out_dir(), "replays", prop), ignore_errors=True)  # witnesses of earlier runs would mislead
     jobs = int(os.environ.get("VERIF_JOBS", getattr(driver, "JOBS", DEFAULT_JOBS)[tier] if isinstance(getattr(driver, "JOBS", None), dict) else DEFAULT_JOBS[tier]))
     jobs = max(1, min(jobs, os.cpu_count() or 1))
     results = []
